@@ -435,6 +435,17 @@ func (r *run) expectCall(want, next string) string {
 	}
 }
 
+// diedMeanwhile: a write or a connect failed; if that is because the process is going down, say so.
+func (r *run) diedMeanwhile(where string) bool {
+	select {
+	case <-r.d.p.dead:
+		r.parentDied(where)
+		return true
+	case <-time.After(300 * time.Millisecond):
+		return false
+	}
+}
+
 func (r *run) parentDied(where string) {
 	if !r.out.ParentDied {
 		r.out.ParentDied = true
@@ -579,7 +590,11 @@ func (r *run) sendBad(c int) error {
 			return nil
 		}
 		if outq(conn) == 0 {
-			if atomic.LoadInt64(&r.d.p.warns) > w0 || inq(conn) > in0 || peekReadable(conn) == 0 {
+			if atomic.LoadInt64(&r.d.p.warns) > w0 || peekReadable(conn) == 0 {
+				return nil
+			}
+			if inq(conn) > in0 {
+				r.note("bad-frame-answered", "the parent answered a malformed unit (%s type=%d declared=%d carried=%d)", v.Cls, v.Type, v.Declared, v.Carried)
 				return nil
 			}
 			select {
@@ -679,10 +694,21 @@ func (d *driver) replay(b *behIn) seqOut {
 		out.Infra = "cannot start the parent process: " + err.Error()
 		return out
 	}
-	d.nextID++
-	id := (os.Getpid()%20000)*100000 + d.nextID%100000
-	d.p.send(pcmd{Cmd: "new", ID: id, Gate: true, Hook: d.hook})
-	if _, err := d.p.waitCtl("ready", 5*time.Second); err != nil {
+	var id int
+	for attempt := 0; ; attempt++ {
+		d.nextID++
+		id = (os.Getpid()%20000)*100000 + d.nextID%100000
+		d.p.send(pcmd{Cmd: "new", ID: id, Gate: true, Hook: d.hook})
+		_, err := d.p.waitCtl("ready", 5*time.Second)
+		if err == nil {
+			break
+		}
+		if attempt == 0 && d.p.isDead() {
+			// the process of the previous behaviour was still going down
+			if err2 := d.ensureParent(); err2 == nil {
+				continue
+			}
+		}
 		out.Infra = "hotrestart.New: " + err.Error()
 		return out
 	}
@@ -702,15 +728,21 @@ func (d *driver) replay(b *behIn) seqOut {
 			k := fmt.Sprint(e.C)
 			out.ExpReplies[k] = append(out.ExpReplies[k], e.X)
 		}
+		if len(out.Issues) > 0 {
+			// the first deviation ends the replay of a behaviour: what follows would only be its echo
+			r.abort = true
+		}
 		if r.abort || i == skip {
 			continue
 		}
 		switch e.A {
 		case "connect":
 			if err := r.connect(e.C); err != nil {
-				r.note("connect-failed", "child %d: %v", e.C, err)
-				out.Followed = false
-				r.abort = true
+				if !r.diedMeanwhile(fmt.Sprintf("(child %d could not connect)", e.C)) {
+					r.note("connect-failed", "child %d: %v", e.C, err)
+					out.Followed = false
+					r.abort = true
+				}
 				continue
 			}
 			r.log("connect", e.C, "")
@@ -732,9 +764,11 @@ func (d *driver) replay(b *behIn) seqOut {
 			if err := r.sendReq(e.C, e.X); err != nil && r.exited {
 				// the parent is gone: the write fails or goes nowhere, the child learns it at its next read
 			} else if err != nil {
-				r.note("send-failed", "child %d %s: %v", e.C, e.X, err)
-				out.Followed = false
-				r.abort = true
+				if !r.diedMeanwhile(fmt.Sprintf("(child %d could not send %s)", e.C, e.X)) {
+					r.note("send-failed", "child %d %s: %v", e.C, e.X, err)
+					out.Followed = false
+					r.abort = true
+				}
 				continue
 			}
 			r.waitAt[e.C] = true
@@ -743,8 +777,7 @@ func (d *driver) replay(b *behIn) seqOut {
 		case "sendbad":
 			if err := r.sendBad(e.C); err != nil && r.exited {
 			} else if err != nil {
-				if r.d.p.isDead() {
-					r.parentDied("while a malformed unit was being sent")
+				if r.diedMeanwhile("while a malformed unit was being sent") {
 				} else {
 					r.note("send-failed", "child %d malformed unit: %v", e.C, err)
 					out.Followed = false
@@ -885,6 +918,13 @@ func (d *driver) replay(b *behIn) seqOut {
 			default:
 			}
 			break
+		}
+	}
+	if out.ParentDied {
+		select {
+		case <-d.p.dead:
+		case <-time.After(2 * time.Second):
+			d.p.cmd.Process.Kill()
 		}
 	}
 	out.Events = len(r.tr)
